@@ -227,14 +227,14 @@ void h_clear(void) {
   Table_Resize(t, 0);
   ASSERT(cv_retired == 2 * old_len && cv_issued == 2 * old_len, "[C05] clearing finalises every key and every value exactly once");
   ASSERT(wf_rh(t, 0), "[C02] an emptied table is a well-formed (empty) table");
-  ASSERT(NS == 0 || cv_freed_a, "[C05] the slot array is released");
+  ASSERT(NS == 0 || cv_freed_a, "[C05][C06] the slot array is released");
   COVER(NS <= 1 || (old_len >= 1), "clear of a non-empty table");
 }
 void h_del(void) {
   arbitrary_table();
   Table_Del(t);
   ASSERT(cv_retired == 2 * old_len && cv_issued == 2 * old_len, "[C05] deleting a Table finalises every key and every value exactly once");
-  ASSERT((NS == 0 || cv_freed_a) && cv_freed_ss == 2, "[C05] the slot array and both swap spaces are released");
+  ASSERT((NS == 0 || cv_freed_a) && cv_freed_ss == 2, "[C05][C06] the slot array and both swap spaces are released");
   COVER(NS <= 1 || (old_len >= 1), "del of a non-empty table");
 }
 /* an emptied table keeps working: operations on the cleared representation (NS == 0) */
@@ -309,4 +309,16 @@ void h_probe(void) {
   uint64_t d = Table_Probe(&T2, in_i, in_h);
   ASSERT(d < in_n && (in_h - 1 + d) % in_n == in_i, "[C02] the probe distance is (i - home) mod nslots");
   COVER(NS <= 1 || (in_i < in_h - 1), "probe distance across the wrap-around");
+}
+
+/* C01: the container's Mark instance hands every element to the collector's callback, once */
+static int cv_mk_calls, cv_mk_hits; static var cv_mk_watch, cv_mk_gc;
+static void cv_mark_cb(var g, void* p) { cv_mk_calls++; if (g != cv_mk_gc) cv_mk_calls += 100; if (p == cv_mk_watch) cv_mk_hits++; }
+void h_mark(void) {
+  arbitrary_table();
+  size_t gh_s = nondet_ulong(); __CPROVER_assume(NS == 0 || gh_s < NS); bool watch_val = nondet_bool();
+  cv_mk_gc = &KX; cv_mk_watch = NS ? (watch_val ? (var)&slot(t, gh_s)->v : (var)&slot(t, gh_s)->k) : NULL;
+  Table_Mark(t, cv_mk_gc, cv_mark_cb);
+  ASSERT(cv_mk_calls == 2 * old_len && (NS == 0 || cv_mk_hits == (slot(t, gh_s)->h != 0)), "[C01] Table_Mark passes every stored key and every stored value to the callback exactly once, and nothing from an empty slot");
+  COVER(NS <= 1 || old_len >= 1, "mark of a non-empty table");
 }
